@@ -24,6 +24,9 @@ pub struct Case {
     /// 0: 1e-7, 1: 1e-6, 2: 1e-5
     pub eps: u8,
     pub twist: [f64; 6],
+    /// optional joint limits given as distances below / above the joint vector (0 = the joint sits exactly on that limit)
+    #[serde(default)]
+    pub window: Option<([f64; 6], [f64; 6])>,
 }
 
 /// Geometric Jacobian from the model: column i = sign_i * (a_i x (p_tcp - o_i); a_i).
@@ -82,8 +85,9 @@ impl Property for C15 {
             joints_uniform(),
             0u8..3,
             prop::array::uniform6(-3.0..3.0f64),
+            prop_oneof![2 => Just(None), 1 => (prop::array::uniform6(prop_oneof![1 => Just(0.0), 1 => Just(1e-6), 3 => 0.01..2.0f64]), prop::array::uniform6(prop_oneof![1 => Just(0.0), 1 => Just(1e-6), 3 => 0.01..2.0f64])).prop_map(Some)],
         )
-            .prop_map(|(robot, tool, base, j, eps, twist)| Case { robot, tool, base, j, eps, twist })
+            .prop_map(|(robot, tool, base, j, eps, twist, window)| Case { robot, tool, base, j, eps, twist, window })
             .boxed()
     }
     fn check(&self, c: &Case, ctx: &mut Ctx) -> Res {
@@ -94,7 +98,20 @@ impl Property for C15 {
         let jgeo = geometric(r, &c.tool, &c.base, &c.j);
 
         // the library Jacobian needs a concrete type (impl Kinematics): build the four shapes explicitly
-        let inner = opw(r);
+        // the robot may carry joint limits (the joint vector is legal, possibly exactly on a limit): the Jacobian is a property
+        // of the kinematic map and does not depend on them
+        let inner = match &c.window {
+            None => opw(r),
+            Some((lo, hi)) => {
+                let from: [f64; 6] = std::array::from_fn(|k| c.j[k] - lo[k]);
+                let to: [f64; 6] = std::array::from_fn(|k| c.j[k] + hi[k] + if lo[k] == 0.0 && hi[k] == 0.0 { 0.5 } else { 0.0 });
+                ctx.class("robot with joint limits");
+                if (0..6).any(|k| lo[k] <= 1e-6 || hi[k] <= 1e-6) {
+                    ctx.class("a joint on (or within 1e-6 of) a limit");
+                }
+                opw_c(r, rs_opw_kinematics::constraints::Constraints::new(from, to, 0.0))
+            }
+        };
         let jac = no_panic(|| match (&c.tool, &c.base) {
             (None, None) => Jacobian::new(&inner, &c.j, eps),
             (Some(t), None) => Jacobian::new(&Tool { robot: Arc::new(inner), tool: to_na(&t.iso()) }, &c.j, eps),
